@@ -296,8 +296,9 @@ def scopesOk (f : GoFile) : Bool := f.funcs.all Func.scopeOk
 
 abbrev Env := List (Bytes × GoTy)
 
-/-- type of names introduced by `:=` (the right-hand sides are fixed text, not part of the view) -/
-def unknownTy : GoTy := .name []
+/-- type of names introduced by `:=` (the right-hand sides are fixed text, not part of the view); a value no
+    description type translates to -/
+def unknownTy : GoTy := .qual [] []
 
 def GoFields.toEnv : GoFields → Env
   | .nil => []
@@ -366,16 +367,18 @@ def dispatchCallOk (decls : List Decl) (env : Env) (path : List Bytes) (as : Lis
     | none => false
   | _ => false
 
+/-- an assignment needs identical types on both sides -/
+def assignable : Option GoTy → Option GoTy → Bool
+  | some a, some b => a.beq b
+  | _, _ => false
+
 def typedStmts (decls : List Decl) (env : Env) : List Stmt → Bool
   | [] => true
   | s :: r =>
     match s with
     | .var n t => typedStmts decls ((n, t) :: env) r
     | .define ns => typedStmts decls (ns.map (fun n => (n, unknownTy)) ++ env) r
-    | .set l rhs =>
-      (match typeOf decls env l, typeOf decls env rhs with
-       | some a, some b => a.beq b
-       | _, _ => false) && typedStmts decls env r
+    | .set l rhs => assignable (typeOf decls env l) (typeOf decls env rhs) && typedStmts decls env r
     | .args path as => dispatchCallOk decls env path as && typedStmts decls env r
     | .use x f => (typeOf decls env (.sel x f)).isSome && typedStmts decls env r
     | .closure p rs b => typedStmts decls (p.toEnv ++ rs.toEnv ++ env) b && typedStmts decls env r
